@@ -59,7 +59,7 @@ def v2_case(rng, i):
     if layer == 'other':
         h += ['u36']
     h += ['t300', 'q']
-    return {'id': 'c09-v2-%d' % i, 'cfg': cfg, 'hist': h, 'sub': 'ksim', 'no_compare': True,
+    return {'id': 'c09-v2-%d' % i, 'cfg': cfg, 'hist': h, 'sub': 'ksim',
             'v2': {'chords': chords, 'target': target, 'layer': layer, 'kind': kind, 'extra': extra},
             'tags': {'mode': 'chords-v2', 'scenario': kind, 'layer': layer, 'burst': burst}}
 
@@ -92,10 +92,46 @@ def oracle(c, it):
     return None
 
 
+def v2_random_case(rng, i):
+    """chords v2 under random typing: compared with the model; the oracle only checks that disabled chords stay silent"""
+    import gen
+    keys = list(V2KEYS)
+    chords = []
+    for _ in range(rng.randint(1, 5)):
+        ks = tuple(sorted(rng.sample(keys, rng.randint(2, 4))))
+        if ks not in [c[0] for c in chords]:
+            chords.append((ks, str(len(chords) + 1), rng.choice([5, 30, 100]), rng.choice(['first-release', 'all-released']),
+                           rng.choice([(), (), ('base',), ('other',)])))
+    base = [rng.choice([k, k, '(tap-hold 0 %d %s lsft)' % (rng.choice([20, 100]), k), '(one-shot 50 lctl)', 'XX']) for k in keys]
+    cfg = '(defcfg concurrent-tap-hold yes%s)\n(defsrc a s d f g h j)\n(deflayer base %s (layer-while-held other))\n(deflayer other a s d f g h _)\n' \
+          '(defchordsv2 %s)' % (rng.choice(['', ' chords-v2-min-idle 5', ' chords-v2-min-idle 50']), ' '.join(base),
+                               ' '.join('(%s) (unicode %s) %d %s (%s)' % (' '.join(c[0]), c[1], c[2], c[3], ' '.join(c[4])) for c in chords))
+    h = ['t3']
+    down = []
+    pool = [V2KEYS[k] for k in keys] + [36]
+    for _ in range(rng.randint(4, 18)):
+        if down and rng.random() < 0.45:
+            k = down.pop(rng.randrange(len(down)))
+            h.append('u%d' % k)
+        else:
+            k = rng.choice(pool)
+            if k not in down:
+                down.append(k); h.append('d%d' % k)
+        if rng.random() < 0.75:
+            h.append('t%d' % rng.choice([1, 1, 2, 4, 10, 40, 120]))
+    h += ['u%d' % k for k in down] + ['t300', 'q']
+    layer_known = 36 not in [int(t[1:]) for t in h if t[0] == 'd']
+    return {'id': 'c09-v2r-%d' % i, 'cfg': cfg, 'hist': h, 'sub': 'ksim',
+            'v2': {'chords': chords, 'target': chords[0], 'layer': 'base' if layer_known else '?', 'kind': 'random', 'extra': None},
+            'tags': {'mode': 'chords-v2-random', 'nchords': len(chords)}}
+
+
 def gen_cases(rng, tier):
     cases = lsim_cases(rng, 'c09', 150 if tier == 'quick' else 4000, 3, nev=(2, 16), tag='c09')
     for i in range(200 if tier == 'quick' else 6000):
         cases.append(v2_case(rng, i))
+    for i in range(250 if tier == 'quick' else 8000):
+        cases.append(v2_random_case(rng, i))
     return cases
 
 
